@@ -28,9 +28,20 @@ for c in $(git -C /repo rev-list --reverse main..fix-$P); do
   fi
 done
 (cd /repo && go build ./... && go test -vet=off -count=1 ./... 2>&1 | grep -v '^ok\|no test files' | head -20)
-git merge -q --no-edit b-$P || { echo "verif merge conflict"; exit 4; }
+if ! git merge -q --no-edit b-$P; then
+  # the only expected conflict: the property's own evidence file (rewritten on both sides)
+  if [ "$(git diff --name-only --diff-filter=U)" = "evidence/$P.json" ]; then
+    git checkout --theirs evidence/$P.json && git add evidence/$P.json && git commit -qm "Merge branch 'b-$P'"
+  else echo "verif merge conflict"; git diff --name-only --diff-filter=U; exit 4; fi
+fi
 while read old new; do
   grep -rl "$old" checks/$P.* 2>/dev/null | xargs -r sed -i "s/$old/$new/g"
 done < $MAP
-if [ -f checks/$P.findings.txt ]; then grep -E '^(known|fixed):' checks/$P.findings.txt >> known_findings.txt; fi
+if [ -f checks/$P.findings.txt ]; then
+  grep -E '^(known|fixed):' checks/$P.findings.txt | while IFS= read -r line; do
+    # identity of a line: "known: property=X key=K" or "fixed: property=X <hash>"
+    id=$(echo "$line" | awk '{print $1" "$2" "$3}')
+    grep -Fq "$id" known_findings.txt || echo "$line" >> known_findings.txt
+  done
+fi
 echo "merged $P"
